@@ -149,7 +149,7 @@ func applyMut(b []byte, mut string) []byte {
 		var n int
 		fmt.Sscan(f[1], &n)
 		return append(append([]byte(nil), b...), make([]byte, n*512)...)
-	case "gz", "bz2", "xz":
+	case "gz", "bz2", "xz", "xzbig", "gz1", "bz1":
 		// compression leaves the fileset unchanged; f[1] = number of concatenated members / streams (all three
 		// formats allow concatenation), cut at tar block boundaries
 		n := 1
@@ -198,6 +198,20 @@ func compressWith(kind string, b []byte) ([]byte, error) {
 		return cmd.Output()
 	case "xz":
 		cmd := exec.Command("xz", "-c", "-0")
+		cmd.Stdin = bytes.NewReader(b)
+		return cmd.Output()
+	case "xzbig": // the compressor's parameters are not the fileset's business: a dictionary as xz -7..-9 declare it
+		cmd := exec.Command("xz", "-c", "--lzma2=preset=0,dict=12MiB")
+		cmd.Stdin = bytes.NewReader(b)
+		return cmd.Output()
+	case "gz1":
+		var buf bytes.Buffer
+		w, _ := gzip.NewWriterLevel(&buf, gzip.BestSpeed)
+		w.Write(b)
+		w.Close()
+		return buf.Bytes(), nil
+	case "bz1":
+		cmd := exec.Command("bzip2", "-c", "-1")
 		cmd.Stdin = bytes.NewReader(b)
 		return cmd.Output()
 	}
@@ -507,7 +521,10 @@ func unpackEngine(c *Ctx) {
 			// compression (none / gzip / bzip2 / xz, one or several concatenated members) must not matter either
 			comp := "none"
 			if c.Chance(1, 2) {
-				comp = fmt.Sprintf("%s:%d", []string{"gz", "gz", "bz2", "xz"}[c.Intn(4)], 1+c.Intn(4))
+				comp = fmt.Sprintf("%s:%d", []string{"gz", "gz", "bz2", "xz", "xzbig", "gz1", "bz1"}[c.Intn(7)], 1+c.Intn(4))
+				if k < 3 && vi == 0 {
+					comp = "xzbig:1"
+				}
 			}
 			c.H("comp:" + strings.Split(comp, ":")[0])
 			op := fmt.Sprintf("unpack tar %s %s %s %s", lossless, format, comp, hdrsTok(hdrs))
